@@ -600,7 +600,8 @@ def check_c19(case, stats=None):
             lo = min(i, b) - 1
             # a subscriber paused and resumed in between keeps its mail (ordinary delivery rules): still required, as long
             # as it is RUNNING again when the run ends (the final flush hands over what is left)
-            if W.state_at(m, lo) != "R" or W.left_active_between(m, lo, e) or W.state_at(m, e) != "R":
+            # (a subscriber that is PAUSED when it happens is sent the notification too)
+            if W.state_at(m, lo) not in ("R", "P") or W.left_active_between(m, lo, e) or W.state_at(m, e) != "R":
                 continue
             fstart = next((j for j, f in W.loop_obs if b < j <= e and not f), None)
             if fstart is not None and W.state_at(m, fstart) != "R":
